@@ -41,7 +41,13 @@ def _memoize_default(default=_NO_DEFAULT, inference_state_is_first_arg=False,
             else:
                 if default is not _NO_DEFAULT:
                     memo[key] = default
-                rv = function(obj, *args, **kwargs)
+                try:
+                    rv = function(obj, *args, **kwargs)
+                except BaseException:
+                    # Don't leave the recursion default behind as if it was
+                    # the result.
+                    memo.pop(key, None)
+                    raise
                 memo[key] = rv
                 return rv
         return wrapper
